@@ -25,6 +25,7 @@ static USE_LOG: AtomicBool = AtomicBool::new(false);
 static LOG_RUNS: AtomicU64 = AtomicU64::new(0);
 static PEEKS: AtomicU64 = AtomicU64::new(0);
 static SEEK_END: AtomicU64 = AtomicU64::new(0);
+static BULK: AtomicU64 = AtomicU64::new(0);
 
 #[derive(Clone, Debug)]
 enum Mode {
@@ -465,6 +466,22 @@ fn reader_mode(a: &Args, t: &mut Trace) -> Value {
                 break;
             }
             let (_, capn, abs, _) = dbg_state(&ex.rd);
+            if rng.chance(1, 10) && ex.avail > 0 {
+                // directed pattern: take everything that is buffered, read at least a whole capacity in one call, then seek back into
+                // whatever the reader still accepts and look at the bytes (a bulk read must not leave a stale but seekable window behind)
+                let n = ex.avail;
+                ex.apply(&Op::Consume(n), &[]);
+                let want = cap + rng.below(cap as u64 + 1) as usize;
+                ex.apply(&Op::Read(want), &[]);
+                if !ex.dead {
+                    let (_, capn2, abs2, _) = dbg_state(&ex.rd);
+                    let tgt = (abs2 + rng.below(capn2 as u64 + 1) as usize).min(srclen);
+                    ex.apply(&Op::SeekStart(tgt), &[]);
+                    ex.apply(&if rng.chance(1, 2) { Op::Fill } else { Op::Peek }, &[]);
+                    BULK.fetch_add(1, Ordering::Relaxed);
+                }
+                continue;
+            }
             let op = match rng.below(12) {
                 10 => Op::Peek,
                 11 => {
@@ -1125,6 +1142,7 @@ fn main() {
         o.insert("iterator_runs_with_logger".into(), json!(LOG_RUNS.load(Ordering::Relaxed)));
         o.insert("peeks".into(), json!(PEEKS.load(Ordering::Relaxed)));
         o.insert("seek_end_calls".into(), json!(SEEK_END.load(Ordering::Relaxed)));
+        o.insert("bulk_read_then_seek_back".into(), json!(BULK.load(Ordering::Relaxed)));
     }
     println!("{}", info);
 }
